@@ -169,8 +169,13 @@ def aux_proj_eq(kind, a, b, tol=1e-6):
         return a is None and b is None
     if rows_proj_eq(a, b, tol):
         return True
-    if kind == "segment" and np.asarray(a).shape == np.asarray(b).shape:
-        return rows_proj_eq(a, np.asarray(b)[..., ::-1, :], tol)
+    a, b = np.asarray(a), np.asarray(b)
+    if kind == "segment" and a.shape == b.shape and a.ndim >= 2:
+        # unit by unit, in either order
+        for idx in np.ndindex(*a.shape[:-2]):
+            if not (rows_proj_eq(a[idx], b[idx], tol) or rows_proj_eq(a[idx], b[idx][::-1], tol)):
+                return False
+        return True
     return False
 
 
